@@ -291,7 +291,10 @@ class Gen:
     advances at the head of the body - and in the body of the main loop, directly and under nested ifs), 'retype', 'branch_first'
     (first assignment inside a branch/loop), 'loop_first' (first assignment inside while True),
     'funcs', 'float', 'str', 'tuple', 'chain_read', 'pass' (do-nothing if arms in chains with a later arm, `pass` between
-    statements) are opt-in."""
+    statements), 'bound_var' (small int variables m0 / m1 - constant-initialised, then re-assigned from sensor reads, in
+    branches, in enclosing loops and between passes of the main loop - used BARE as range() bounds, sleep / analog_write
+    arguments and in conditions; with 'funcs' the first parameter of every helper is such a bound, half of them spelled like
+    the global m0) are opt-in."""
 
     def __init__(self, rng, features=()):
         self.rng = rng
@@ -307,11 +310,14 @@ class Gen:
         self.n_continue = {"for": 0, "while": 0, "main": 0}
         self.loop_kinds = []    # stack of the enclosing for/while loops
         self.n_pass = {}        # `pass` statements generated (as the only statement of an if arm / between statements)
+        self.bounds = []        # feature 'bound_var': small int variables used bare as range() bounds
+        self.locked = []        # ... those that are the bound of an enclosing for loop (its body never assigns them)
+        self.n_bound = {}       # what was generated for them (by kind)
 
     # ---- expressions
     def int_atom(self, allow_vars=True):
         r = self.rng
-        pool = self.ints + self.loopvars
+        pool = self.ints + self.loopvars + self.bounds
         if allow_vars and pool and r.random() < 0.6:
             return r.choice(pool)
         v = r.choice([0, 1, 2, 3, 4, 5, 7, 10, 12, 100, -1, -3, -8])
@@ -342,7 +348,7 @@ class Gen:
             return f"({self.int_atom()} ** 2)"
         if k < 0.98 and self.funcs and "calls_nested" in self.f:
             fn = r.choice(self.funcs)
-            return f"{fn[0]}({', '.join(self.int_expr(d - 1) for _ in fn[1])})"
+            return f"{fn[0]}({', '.join(self.call_args(fn, d - 1))})"
         return self.int_atom()
 
     def float_expr(self, d=1):
@@ -415,8 +421,104 @@ class Gen:
             return ("if", [(self.bool_expr(0), [("write", self.write_expr())])], cont)
         return ("continue",)
 
+
+    # ---- feature 'bound_var'
+    def _nb(self, what):
+        self.n_bound[what] = self.n_bound.get(what, 0) + 1
+
+    def small_arg(self):
+        """a value that is small at run time (it becomes a range() bound inside a helper)"""
+        r = self.rng
+        k = r.random()
+        if k < 0.4 and self.bounds:
+            return r.choice(self.bounds)
+        if k < 0.55 and self.bounds:
+            return f"({r.choice(self.bounds)} + 1)"
+        if k < 0.65 and self.loopvars:
+            return r.choice(self.loopvars)
+        return r.choice(["0", "1", "2", "3", "4"])
+
+    def call_args(self, fn, d):
+        if "bound_var" in self.f:          # the first parameter of such a helper is the bound of a for-range loop
+            return [self.small_arg()] + [self.int_expr(d) for _ in fn[1][1:]]
+        return [self.int_expr(d) for _ in fn[1]]
+
+    def bound_for(self, depth, in_loop, v=None):
+        """`for k in range(m):` with a BARE variable bound; the body never assigns m (F-C01-range-bound-reeval)"""
+        r = self.rng
+        m = v or r.choice(self.bounds)
+        k = f"k{len(self.loopvars)}"
+        self.loopvars.append(k)
+        self.locked.append(m)
+        saved = list(self.ints)
+        self.loop_kinds.append("for")
+        body = [("write", r.choice([k, f"({k} * 10 + {m})", f"({m} - {k})"]))] if r.random() < 0.6 else []
+        body += self.block(max(depth - 1, 0), True, False, n=r.choice([1, 1, 2]))
+        self.loop_kinds.pop()
+        if "branch_first" not in self.f:
+            self.ints = list(saved)
+        self.locked.pop()
+        self.loopvars.pop()
+        self._nb("for-bare-bound" + ("-in-main" if self.in_main else "") + ("-nested" if in_loop else ""))
+        return ("for", k, m, body)
+
+    def bound_stmt(self, depth, in_loop, top):
+        """a statement that changes a bound variable (never one that bounds an enclosing for loop); values stay small:
+        plain / augmented +-1 steps, modular steps, literals (under an `if` too), sensor reads reduced mod 4, copies"""
+        r = self.rng
+        free = [m for m in self.bounds if m not in self.locked]
+        if not free:
+            return ("write", r.choice(self.bounds))
+        m = r.choice(free)
+        k = r.random()
+        where = ("main" if self.in_main else "setup") + ("-in-loop" if in_loop else "")
+        if k < 0.2:
+            self._nb("plain-step:" + where)
+            return ("assign", m, f"({m} + 1)" if r.random() < 0.7 else f"({m} - 1)")
+        if k < 0.3:
+            self._nb("aug-step:" + where)
+            return ("aug", m, r.choice(["+", "+", "-"]), "1")
+        if k < 0.45:
+            self._nb("modular-step:" + where)
+            return ("assign", m, f"(({m} + {r.choice([1, 2, 3])}) % {r.choice([3, 4, 5])})")
+        if k < 0.55:
+            self._nb("literal:" + where)
+            return ("assign", m, r.choice(["0", "1", "2", "3", "4", "5"]))
+        if k < 0.67:
+            self._nb("literal-under-if:" + where)
+            c = r.choice([f"({m} > {r.choice([1, 2, 3])})", f"({m} < {r.choice([1, 2])})", self.bool_expr(0)])
+            return ("if", [(c, [("assign", m, r.choice(["0", "1", "2", "4"]))])], [("assign", m, f"({m} + 1)")] if r.random() < 0.3 else [])
+        if k < 0.77:
+            self._nb("digital-read:" + where)
+            return ("read", m, "digital", "4")
+        if k < 0.9:
+            self._nb("analog-read-mod:" + where)
+            return ("seq", [("read", m, "analog", r.choice(['"A0"', '"A1"'])), ("assign", m, f"({m} % {r.choice([3, 4, 5])})")])
+        if k < 0.94 and "tuple" in self.f and len(free) >= 2:
+            self._nb("swap:" + where)
+            a_, b_ = r.sample(free, 2)
+            return ("swap", a_, b_)
+        others = [x for x in self.bounds + self.loopvars if x != m]
+        if others:
+            self._nb("copy:" + where)
+            return ("assign", m, r.choice(others))
+        self._nb("literal:" + where)
+        return ("assign", m, "2")
+
     def stmt(self, depth, in_loop, top):
         r = self.rng
+        if "bound_var" in self.f and self.bounds:
+            k = r.random()
+            if k < 0.2:
+                return self.bound_stmt(depth, in_loop, top)
+            if k < 0.36 and depth > 0:
+                return self.bound_for(depth, in_loop)
+            if k < 0.42:
+                m = r.choice(self.bounds)
+                j = r.random()
+                self._nb("bare-argument")
+                # bare variable as the argument (guarded: a negative delay / duty is not a well-defined script)
+                return ("if", [(f"({m} >= 0)", [("sleep", m) if j < 0.5 else ("aw", r.choice(["5", "6"]), m)])], [])
         if "continue" in self.f and (in_loop or self.in_main) and r.random() < 0.22:
             return self.continue_stmt(depth, in_loop)
         if top and "tuple" in self.f and self.ints and len(self.ints) < 7 and r.random() < 0.2:
@@ -495,6 +597,8 @@ class Gen:
             return ("if", branches, els)
         if k < 0.87 and depth > 0:
             v = f"k{len(self.loopvars)}"
+            if "bound_var" in self.f and self.bounds and r.random() < 0.5:
+                return self.bound_for(depth, in_loop)
             if "range_var" in self.f and r.random() < 0.4:
                 cnt = f"abs({self.int_atom()}) % 4"
             elif r.random() < 0.3:
@@ -516,6 +620,13 @@ class Gen:
             self.counter += 1
             saved = list(self.ints)
             self.loop_kinds.append("while")
+            wlim = None
+            free = [m for m in self.bounds if m not in self.locked]
+            if "bound_var" in self.f and free and r.random() < 0.45:
+                # the limit of the while loop is a bare bound variable (its body never assigns it: the loop terminates)
+                wlim = r.choice(free)
+                self.locked.append(wlim)
+                self._nb("while-limit-bare" + ("-in-main" if self.in_main else ""))
             if "continue" in self.f:
                 # the counter advances FIRST: a `continue` anywhere in the body cannot skip it (the loop terminates)
                 body = [("assign", c, f"({c} + 1)")] + self.block(depth - 1, True, False)
@@ -525,6 +636,9 @@ class Gen:
             if "branch_first" not in self.f:
                 self.ints = list(saved)
             lim = r.choice(["0", "1", "2", "3"])
+            if wlim is not None:
+                self.locked.pop()
+                lim = wlim
             return ("seq", [("assign", c, "0"), ("while", f"({c} < {lim})" if r.random() < 0.7 else f"({c} < {lim} and {self.bool_expr(0)})", body)])
         if k < 0.96 and in_loop:
             c = self.bool_expr(0)
@@ -537,7 +651,7 @@ class Gen:
             return ("swap", a, b)
         if self.funcs and r.random() < 0.7:
             fn = r.choice(self.funcs)
-            args = [self.int_expr(1) for _ in fn[1]]
+            args = self.call_args(fn, 1)
             if r.random() < 0.5:
                 return ("callassign", r.choice(self.ints), fn[0], args)
             return ("write", f"{fn[0]}({', '.join(args)})")
@@ -566,11 +680,32 @@ class Gen:
                 sub = Gen(r, self.f - {"funcs"})
                 sub.ints = list(params)
                 sub.counter = 50 + 10 * i      # function-local while counters get their own names
-                body = sub.block(1, False, False, n=r.choice([0, 1, 2]))
+                lead = []
+                if "bound_var" in self.f:
+                    # the first parameter is a loop bound (small at every call site); half of them shadow the global m0
+                    params = [r.choice(["m0", "p0"]), "p1"]
+                    sub.ints = ["p1"]
+                    sub.bounds = [params[0]]
+                    sub.n_bound = self.n_bound
+                    if r.random() < 0.7:
+                        lead = [sub.bound_for(1, False, params[0])]
+                        self._nb("for-bound-is-parameter" + ("-shadowing-global" if params[0] == "m0" else ""))
+                body = lead + sub.block(1, False, False, n=r.choice([0, 1, 2]))
                 # locals of the function: keep only params visible for the return
                 ret = sub.int_expr(1)
                 self.funcs.append((f"fn{i}", params, body, ret))
         pre = []
+        head = []
+        if "bound_var" in self.f:
+            # constant-initialised (non-zero literal mostly), or first assigned from a sensor read; with helpers mostly
+            # ABOVE the defs (a parameter spelled like such a global then shadows a name the parser already knows)
+            bdecl = head if (self.funcs and r.random() < 0.65) else pre
+            for m in ["m0", "m1"][:r.choice([1, 2, 2])]:
+                if r.random() < 0.8:
+                    bdecl.append(("assign", m, r.choice(["1", "2", "3", "4", "2", "0"])))
+                else:
+                    bdecl.append(("read", m, "digital", "4"))
+                self.bounds.append(m)
         # declare a few ints (and floats/bools) up front so that everything is assigned before use
         for _ in range(r.choice([2, 3, 4])):
             n = self.new_int()
@@ -591,6 +726,12 @@ class Gen:
         self.in_main = False
         wdecl = [("assign", "n0", str(r.choice([0, 1, 2, 3])))] + [("assign", f"w{j}", "0") for j in range(self.counter)]
         prog = {"funcs": [(f[0], f[1], f[2], f[3]) for f in self.funcs], "pre": wdecl + pre + body_pre, "main": main}
+        if "bound_var" in self.f:
+            prog["n_bound"] = dict(self.n_bound)
+            if head:
+                prog["head"] = head
+                self._nb("declared-above-the-defs")
+                prog["n_bound"] = dict(self.n_bound)
         if "continue" in self.f:
             prog["n_continue"] = dict(self.n_continue)     # by innermost enclosing loop (helper-function bodies not counted)
         return prog
